@@ -22,24 +22,24 @@ theorem C05_buffered_save_defers (s : B.State) (oi : Nat) (o : B.Obj) (ho : s.ob
   save_buffered_defers s oi o ho hb
 
 /-- C05, the flush at the outermost exit, shared-memory strategy: the file receives exactly the
-buffered data and the flush does not raise (no outside change). -/
+buffered data and the flush does not raise (no outside change, the write itself succeeds: `s.failing` lists the files whose writes fail with OSError). -/
 theorem C05_exit_writes_buffered_memory (s : B.State) (oi : Nat) (o : B.Obj) (force : Bool) (e : B.Entry)
     (hb : (!(s.isBuffered o) || force) = true) (he : s.entry o.res = some e)
-    (hm : e.modified = true) (hc : e.fmeta = s.stat o.res) :
+    (hm : e.modified = true) (hc : e.fmeta = s.stat o.res) (hw : s.failing.contains o.res = false) :
     (flushMem s oi o force).2 = none ∧
     (flushMem s oi o force).1.store o.res = some (s.cellData e.cell).toBase :=
-  flushMem_writes_buffered s oi o force e hb he hm hc
+  flushMem_writes_buffered s oi o force e hb he hm hc hw
 
 /-- C05, the flush at the outermost exit, serialized strategy: the file receives the buffered
 contents (merged into the flushing object) and the entry leaves the buffer. -/
 theorem C05_exit_writes_buffered_serialized (s : B.State) (oi : Nat) (o : B.Obj) (force : Bool)
     (e : B.Entry) (hb : (!(s.isBuffered o) || force) = true) (he : s.entry o.res = some e)
     (hm : Tr.same e.contents e.hash = false) (hc : e.fmeta = s.stat o.res)
-    (hmerge : (mergeInto s oi o e.contents).2 = none) :
+    (hmerge : (mergeInto s oi o e.contents).2 = none) (hw : s.failing.contains o.res = false) :
     (flushSer s oi o force).2 = none ∧
     (flushSer s oi o force).1.store o.res = some ((mergeInto s oi o e.contents).1.root o).toBase ∧
     (flushSer s oi o force).1.entry o.res = none :=
-  flushSer_writes s oi o force e hb he hm hc hmerge
+  flushSer_writes s oi o force e hb he hm hc hmerge hw
 
 /-- ... and that written content IS the buffered contents (the merge post-condition): same
 structure, identical scalars, same key sets — whatever the flushing object's own memory held. -/
